@@ -38,10 +38,17 @@ def determinism():
                           ['--property', prop, '--profile', prof, '--seed', '7', '--tier', 'quick'], prof))
     for b in ('thr-rel', 'thr-dbg'):
         plans.append(('threads', b, ['core', 'io', 'thr'], ['--seed', '7', '--tier', 'quick'], 'threads'))
+    # the small families: large fields, beyond-machine constructions, the pre-main plans
+    special = {'bigsweep': 24, 'hugesweep': 300, 'premain': 99, 'rtsweep': 400}
+    for prof, prop in (('bigsweep', 'C05'), ('bigsweep', 'C07'), ('hugesweep', 'C12'), ('premain', 'C05'), ('rtsweep', 'C06')):
+        plans.append(('hist', 'rel-plain', ['core', 'io', 'conv'],
+                      ['--property', prop, '--profile', prof, '--seed', '7', '--tier', 'quick'], prof))
+    n_default = n
     for world, b, groups, args, label in plans:
         exe, failed = build.build_world(world, b, groups, thorough=False, quiet=True)
         args = args + ['--disable', ','.join(sorted(failed))]
         ref = None
+        n = special.get(label, n_default)
         for w in (1, 4, 16, 16):
             results, _ = run.run_batch(exe, args, n, w)
             sig = _sig_hist(results)
